@@ -6,7 +6,7 @@
 set -e
 export GOFLAGS=-mod=mod GOPROXY=off GOSUMDB=off GOTOOLCHAIN=local CGO_ENABLED=0
 cd /verif/harness && cp /repo/go.sum go.sum
-go build -cover -coverpkg=github.com/coyim/otr3,github.com/coyim/otr3/sexp -tags verif -o ../bin/otrh-cover .
+go build -cover -coverpkg=github.com/coyim/otr3,github.com/coyim/otr3/sexp,verifharness -tags verif -o ../bin/otrh-cover .
 rm -rf /verif/work/cov && mkdir -p /verif/work/cov/data
 cd /verif/work/cov
 python3 - <<'PY' > runs.txt
